@@ -231,9 +231,8 @@ theorem expt_rat32_neg_partial (cfg : Cfg) {n d : Int}
   have hk1 : 1 ≤ r.natAbs := by omega
   -- the powers form a canonical 32-bit ratio; the rest is the reciprocal of `/`
   have hdk : 1 < d ^ r.natAbs := by
-    have h2 : (2 : Int) ^ r.natAbs ≤ d ^ r.natAbs := Int.pow_le_pow_left (by omega) (by omega) _
-    have h3 : (2 : Int) ^ 1 ≤ 2 ^ r.natAbs := Int.pow_le_pow_of_le_right (by omega) hk1
-    omega
+    have h2 : d ^ 0 < d ^ r.natAbs := Int.pow_lt_pow_of_lt hd (by omega)
+    rwa [Int.pow_zero] at h2
   have hcan : Canonical (.rat32 (n ^ r.natAbs) (d ^ r.natAbs)) :=
     ⟨hdk, gcd_pow_pow hgcd _, hfn, hfd⟩
   have hrec := recip_exact Cfg.pinned hcan (by simp) (Or.inr (by simpa [RecipGuard] using hmin))
